@@ -505,6 +505,16 @@ func corpus() []scenario {
 			mkdir("m/d"), p1("Remove", "m/r"), p1("ListXattrs", "k"), p1("ReadDir", "a/b"), p1("ReadFile", "k")}},
 		{"corner/budget-per-lookup", false, budgetPerLookup()},
 		{"corner/tarfs-mkdirall-dot", true, []Op{mkdirall("."), p1("ReadDir", "/"), mkdirall("/"), p1("ReadDir", "."), p1("Stat", ".")}},
+		// what the directory-backed filesystem decides itself (Model/DirFS.v): overlay and host drifting apart
+		{"dirfs/overlay-drift", true, []Op{mkdir("d"), wfile("d/f", "abc"), p1("Remove", "d"), p1("Stat", "d"), p1("ReadFile", "d/f"), p1("ReadDir", "d"), mkdirall("d/x"), p1("ReadDir", "d"),
+			p1("Stat", "d/f"), p1("Lstat", "d/f"), wfile("d/f", "zz"), p1("Stat", "d/f"), p1("ReadDir", "d"), p1("Remove", "d/x"), p1("Remove", "d/f"), p1("Remove", "d"), p1("ReadDir", ".")}},
+		{"dirfs/create-dot", true, []Op{wfile("f", "x"), p1("Create", "."), p1("ReadDir", "."), p1("Lstat", "."), p1("Remove", "."), p1("ReadDir", "."), p1("Remove", "."), mkdir("."), symlink("f", "."), link("f", "."), open(".", fl(1, "creat")), p1("ReadDir", ".")}},
+		{"dirfs/link-climb-and-slash", true, []Op{wfile("f", "x"), link("../f", "g"), link("a/../../f", "g"), link("/f", "g"), p1("ReadFile", "g"), mkdir("a"), link("a/../f", "h"), p1("ReadFile", "h"), link("a/../../f", "k"), p1("ReadDir", ".")}},
+		{"dirfs/link-symlink-oldname", true, []Op{wfile("f", "abc"), symlink("f", "l"), link("l", "m"), p1("ReadFile", "m"), p1("Lstat", "m"), p1("Stat", "m"), p1("Remove", "f"), p1("ReadFile", "m"), p1("Stat", "m"), p1("Lstat", "m"), p1("Readlink", "m"), symlink("nowhere", "dl"), link("dl", "n"), p1("ReadDir", ".")}},
+		{"dirfs/stat-mixes", true, []Op{wfile("f", "abc"), Op{K: "Chmod", P: "f", Perm: 0o600}, Op{K: "Chown", P: "f", Uid: 12, Gid: 34}, p1("Stat", "f"), p1("Lstat", "f"), open("f", fl(2, "creat", "trunc")), write(0, "hello"), p1("Stat", "f"), p1("ReadFile", "f"),
+			wfile("d", "1"), mkdir("d"), p1("Remove", "d"), mkdir("d"), wfile("d", "2"), Op{K: "Chtimes", P: "nope", T: 1000000}, Op{K: "Chtimes", P: "f", T: 1000000}, Op{K: "Chmod", P: "nope", Perm: 0o600}, open("f", fl(0, "creat", "excl")), p1("Create", "d"), p1("ReadDir", ".")}},
+		{"dirfs/unclean-nonclimbing", true, []Op{mkdir("a"), wfile("a/../g", "x"), p1("ReadFile", "g"), p1("Stat", "./g"), mkdir("./h"), p1("ReadDir", "."), wfile("a//k", "y"), p1("ReadFile", "a/k"), p1("Stat", "a/"), p1("Remove", "a/./k"), p1("ReadDir", "a"),
+			mkdirall("a/./x/../y"), p1("ReadDir", "a"), symlink("g", "a/../s"), p1("ReadFile", "s"), p1("Readlink", "s"), link("./g", "a/./hl"), p1("ReadFile", "a/hl"), p1("Remove", "a/"), p1("ReadDir", ".")}},
 		{"chain/39", false, chain(39)},
 		{"chain/40", false, chain(40)},
 		{"chain/41", false, chain(41)},
